@@ -314,10 +314,10 @@ func init() {
 	suites["fp"] = func(e *emitter, r *rng, thorough bool) {
 		g := &fpGen{e: e, r: r, thorough: thorough}
 		// quick: a few thousand literals (the extracted model needs ~20 ms per slow-path literal);
-		// thorough: > 300,000 cases for every op
+		// thorough: about 100,000 cases for every op (sized so that the extracted model finishes within half an hour)
 		rep := 1
 		if thorough {
-			rep = 6
+			rep = 2
 		}
 
 		// ---- len: every mantissa length 1..30 x every exponent -400..400
@@ -336,7 +336,7 @@ func init() {
 		// plain forms without exponent
 		nplain := 100
 		if thorough {
-			nplain = 3200
+			nplain = 1200
 		}
 		for k := 0; k < nplain; k++ {
 			n := 1 + g.r.intn(40)
@@ -349,7 +349,7 @@ func init() {
 		longs := []int{31, 32, 40, 50, 64, 100, 200, 400, 767, 768, 799, 800, 801, 802, 810, 900, 1200}
 		nlong := 1
 		if thorough {
-			nlong = 48
+			nlong = 12
 		}
 		if !thorough {
 			longs = []int{31, 100, 800, 801}
@@ -395,7 +395,7 @@ func init() {
 		}
 		nh := 2
 		if thorough {
-			nh = 5000
+			nh = 1500
 		}
 		for i := 0; i < nh; i++ {
 			g.halfFamily(g.randBits())
@@ -405,7 +405,7 @@ func init() {
 		g.fam("float")
 		nf := 50
 		if thorough {
-			nf = 30000
+			nf = 10000
 		}
 		for i := 0; i < nf; i++ {
 			f := math.Float64frombits(g.randBits())
@@ -452,7 +452,7 @@ func init() {
 		g.fam("rows")
 		per := 1
 		if thorough {
-			per = 150
+			per = 50
 		}
 		for q := -352; q <= 351; q++ {
 			for i := 0; i < per; i++ {
@@ -481,7 +481,7 @@ func init() {
 		g.fam("elhard")
 		nel := 60
 		if thorough {
-			nel = 4000
+			nel = 1500
 		}
 		for i := 0; i < nel; i++ {
 			odd := (g.r.next() % (1 << 53)) | 1<<53 | 1
@@ -507,7 +507,7 @@ func init() {
 		g.fam("exact")
 		nx := 30
 		if thorough {
-			nx = 2400
+			nx = 800
 		}
 		for x := -30; x <= 45; x++ {
 			for i := 0; i < nx; i++ {
